@@ -33,11 +33,9 @@ fn offtin(buf: [u8; 8]) -> i64 {
 
 /// Encode a signed 64-bit integer using sign-magnitude (bsdiff `offtout`).
 fn offtout(value: i64) -> [u8; 8] {
-    let (magnitude, negative) = if value < 0 {
-        (-value, true)
-    } else {
-        (value, false)
-    };
+    // `unsigned_abs` cannot overflow; i64::MIN has no sign-magnitude encoding and is
+    // rejected by `ControlEntry::validate`.
+    let (magnitude, negative) = (value.unsigned_abs() & 0x7FFF_FFFF_FFFF_FFFF, value < 0);
     let mut buf = magnitude.to_le_bytes();
     if negative {
         buf[7] |= 0x80;
@@ -109,6 +107,12 @@ impl ControlEntry {
                 "diff_size too large: {}",
                 self.diff_size
             )));
+        }
+
+        if self.seek_offset == i64::MIN {
+            return Err(ZbsdiffError::application_failed(
+                "seek_offset i64::MIN cannot be encoded in sign-magnitude form",
+            ));
         }
 
         if self.extra_size > MAX_OP_SIZE {
